@@ -32,8 +32,28 @@ EmptyV == [x \in {} |-> Null]
 \* arithmetic, case-insensitive string comparison.  (Differences of grouping
 \* or operand order between uninterpreted operators show on every row.)
 Domains == << {Null, B(TRUE), I(1)}, {Null, B(TRUE), B(FALSE)}, {I(1), I(2)}, {S(<<"a">>), S(<<"A">>)} >>
-RowsFor(cs, scope, ph) ==
-  UNION { { [cols |-> f, scope |-> scope, ph |-> ph] : f \in [cs -> Domains[d]] } : d \in DOMAIN Domains }
+PutV(f, n, v) == [k \in DOMAIN f \cup {n} |-> IF k = n THEN v ELSE f[k]]
+
+\* lexical scoping (C06): parameters first, then the lets before the query in order,
+\* each value a closed expression evaluated in the scope built so far
+RECURSIVE FoldParams(_, _, _, _), FoldLets(_, _, _, _)
+FoldParams(ps, i, scope, ph) ==
+  IF i > Len(ps) THEN scope
+  ELSE LET r == ReadExpr(ps[i].toks, "ch")
+           v == IF r.ok THEN EvalS(r.v, [cols |-> EmptyV, scope |-> EmptyV, ph |-> ph]) ELSE Opq("unreadable", <<>>)
+       IN FoldParams(ps, i + 1, PutV(scope, ps[i].n, v), ph)
+FoldLets(ls, i, scope, ph) ==
+  IF i > Len(ls) THEN scope
+  ELSE FoldLets(ls, i + 1, PutV(scope, ls[i].n, EvalP(ls[i].x, [cols |-> EmptyV, scope |-> scope, ph |-> ph])), ph)
+ScopeVals(sc, ph) == FoldLets(sc.lets, 1, FoldParams(sc.params, 1, EmptyV, ph), ph)
+
+PhNames(sc) == { sc.params[i].toks[1].v : i \in { j \in DOMAIN sc.params : Len(sc.params[j].toks) = 1 /\ sc.params[j].toks[1].k = "ph" } }
+
+RowsSc(cs, sc) ==
+  UNION { { [cols |-> f, ph |-> g, scope |-> ScopeVals(sc, g)] : f \in [cs -> Domains[d]], g \in [PhNames(sc) -> Domains[d]] }
+          : d \in DOMAIN Domains }
+NoSc == [params |-> <<>>, lets |-> <<>>]
+RowsFor(cs, scope, ph) == RowsSc(cs, NoSc)
 
 \* no sign directly followed by a sign: "--" opens a comment
 PrefixPos(ts, i) ==
@@ -42,23 +62,40 @@ PrefixPos(ts, i) ==
 NoSignFusion(ts) ==
   \A i \in 1..(Len(ts) - 1) : ~(ts[i] = OP("-") /\ ts[i + 1] = OP("-") /\ PrefixPos(ts, i))
 
+\* join conditions are compared by truth (see DESIGN.md, C03)
+SameAt(pos, a, b) == IF pos \in {"joinOn", "joinOn2"} THEN CoalesceF(a) = CoalesceF(b) ELSE a = b
+
 Tables == {"ch", "pg"}
 
 SameMeaning(e, sqlTree, rows) == \A row \in rows : EvalS(sqlTree, row) = EvalP(e, row)
 
+\* the scope as the compiler holds it: name -> SQL tokens
+RECURSIVE FoldLetToks(_, _, _)
+FoldLetToks(ls, i, scope) ==
+  IF i > Len(ls) THEN scope ELSE FoldLetToks(ls, i + 1, PutV(scope, ls[i].n, EmLetValue(ls[i].x, scope)))
+RECURSIVE FoldParamToks(_, _, _)
+FoldParamToks(ps, i, scope) == IF i > Len(ps) THEN scope ELSE FoldParamToks(ps, i + 1, PutV(scope, ps[i].n, ps[i].toks))
+ScopeToks(sc) == FoldLetToks(sc.lets, 1, FoldParamToks(sc.params, 1, EmptyFn))
+
+WithToks(sc) == [sc EXCEPT !.params = [i \in DOMAIN sc.params |-> [n |-> sc.params[i].n, toks |-> <<ST("ph", sc.params[i].s)>>]]]
+CaseSc == IF Family = "scope" THEN WithToks(ScopeSc(ch)) ELSE NoSc
+
 ExprDesignOK ==
   (Complete(ch) /\ Family \in ExprFamilies) =>
     LET e == ExprOf(Family, ch)
-        ts == Em(e, DefaultCtx)
+        pos == PosOf(Family, ch)
+        sc == CaseSc
+        ctx == [mode |-> IF pos \in {"joinOn", "joinOn2"} THEN "join" ELSE "default", scope |-> ScopeToks(sc)]
+        ts == Em(e, ctx)
     IN /\ ~HasErr(ts)
        /\ NoSignFusion(ts)
-       /\ Em(ParenAll(e), DefaultCtx) = ts          \* redundant parentheses never change the output
+       /\ Em(ParenAll(e), ctx) = ts          \* redundant parentheses never change the output
        /\ LET rc == ReadExpr(ts, "ch")
               rp == ReadExpr(ts, "pg")
-              rows == RowsFor(ColsOf(e), EmptyV, EmptyV)
+              rows == RowsSc(ColsOf(e) \cup {"n"}, sc)
           IN /\ rc.ok /\ rp.ok
-             /\ SameMeaning(e, rc.v, rows)
-             /\ (rp.v # rc.v => SameMeaning(e, rp.v, rows))
+             /\ \A row \in rows : SameAt(pos, EvalS(rc.v, row), EvalP(e, row))
+             /\ (rp.v # rc.v => \A row \in rows : SameAt(pos, EvalS(rp.v, row), EvalP(e, row)))
 
 ---------------------------------------------------------------------------
 (* trace validation                                                        *)
@@ -89,8 +126,6 @@ Slot(st, pos) ==
     [] pos = "inlist" -> m.where.vals[1]
     [] OTHER -> SNone
 
-\* join conditions are compared by truth (see DESIGN.md, C03)
-SameAt(pos, a, b) == IF pos \in {"joinOn", "joinOn2"} THEN CoalesceF(a) = CoalesceF(b) ELSE a = b
 
 \* a bare name k in a join condition means $left.k == $right.k
 JoinCond(e) ==
@@ -110,7 +145,7 @@ Judge(rec, tbl) ==
   IF ~st.ok THEN [status |-> "unreadable", rows |-> {}]
   ELSE LET s == Slot(st.v, rec.pos) IN
        IF s = SNone THEN [status |-> "noslot", rows |-> {}]
-       ELSE LET Bad(e) == { row \in RowsFor(ColsOf(e), EmptyV, EmptyV) : ~SameAt(rec.pos, EvalS(s, row), EvalP(e, row)) }
+       ELSE LET Bad(e) == { row \in RowsSc(ColsOf(e) \cup {"n"}, rec.sc) : ~SameAt(rec.pos, EvalS(s, row), EvalP(e, row)) }
                 ms == Meanings(rec.pos, rec.e)
             IN IF \E e \in ms : Bad(e) = {} THEN [status |-> "ok", rows |-> {}]
                ELSE [status |-> "differs", rows |-> Bad(CHOOSE e \in ms : TRUE)]
@@ -128,7 +163,7 @@ Verdict(rec) ==
                 [] j.status = "noslot" -> "no expression in the slot"
                 [] OTHER -> "the SQL expression has another value than the PQL expression",
       row |-> IF j.status # "differs" THEN <<>>
-              ELSE LET r == CHOOSE r \in j.rows : TRUE IN [c \in DOMAIN r.cols |-> r.cols[c]],
+              ELSE LET r == CHOOSE r \in j.rows : TRUE IN [cols |-> r.cols, ph |-> r.ph],
       table |-> IF jc.status # "ok" THEN "ch" ELSE IF jp.status # "ok" THEN "pg" ELSE ""]
 
 DesignInit == Init /\ l = 0
